@@ -4,6 +4,7 @@ variable names, aimed at the interplay the properties single out - injection x
 aggregating expressions x shared variable names, key-less aggregates as
 intermediates, chains of WITH / grounded tables."""
 from harness.ir import *  # pylint: disable=wildcard-import,unused-wildcard-import
+from harness.ir import N as N_
 
 
 def Facts(name, rows, named=()):
@@ -143,3 +144,68 @@ C08_FAMILIES = [
     ('with_ground_chain_e_first', lambda r: WithGroundChain(r, True)),
     ('with_ground_chain_w_first', lambda r: WithGroundChain(r, False)),
 ]
+
+
+# ---- C04: functor shapes beyond the random generator -----------------------------
+
+def _Unary(name, rng, lo=0, hi=2):
+  return Facts(name, [(v,) for v in sorted({rng.randint(lo, hi)
+                                            for _ in range(rng.randint(2, 4))})])
+
+
+def MadeWithOwnRules(rng):
+  """A made predicate that also has a hand-written rule, then used through
+  another functor whose argument lies in the made part."""
+  x = Var('x')
+  A, B, C, Ex = (_Unary(n, rng) for n in ('A', 'B', 'C', 'Extra'))
+  F = Pred('F', [Rule([('col0', x, '')], [Atom('A', [('col0', x)])])])
+  N = Pred('N', [Rule([('col0', x, '')], [Atom('Extra', [('col0', x)])])])
+  G = Pred('G', [Rule([('col0', x, '')],
+                      [Atom('N', [('col0', x)]), Cmp(Op('>', x, Lit(N_(0))))])])
+  prog = Prog([A, B, C, Ex, F, N, G])
+  prog['makes'] = [{'name': 'N', 'functor': 'F', 'args': [{'k': 'A', 'v': 'B'}]},
+                   {'name': 'P', 'functor': 'G', 'args': [{'k': 'B', 'v': 'C'}]}]
+  return prog, ['F', 'N', 'G', 'P', 'A', 'B', 'C'], ['fam_made_with_own_rules']
+
+
+def MadeWithLimit(rng):
+  """A made predicate with its own @OrderBy/@Limit; a second functor built
+  from the same applicant with EQUAL bindings must not be wired to it."""
+  x = Var('x')
+  A, B = _Unary('A', rng), _Unary('B', rng)
+  F = Pred('F', [Rule([('col0', x, '')], [Atom('A', [('col0', x)])])])
+  Nl = Pred('N', [], order=[('col0', rng.random() < 0.5)], limit=1)
+  G = Pred('G', [Rule([('col0', x, '')],
+                      [Atom('F', [('col0', x)]), Cmp(Op('>=', x, Lit(N_(0))))])])
+  prog = Prog([A, B, F, Nl, G])
+  prog['makes'] = [{'name': 'N', 'functor': 'F', 'args': [{'k': 'A', 'v': 'B'}]},
+                   {'name': 'P', 'functor': 'G', 'args': [{'k': 'A', 'v': 'B'}]}]
+  return prog, ['F', 'N', 'G', 'P'], ['fam_made_with_limit']
+
+
+def MakeOrderChain(rng):
+  """N := H(D: V) with V an ordinary predicate built from the made predicate
+  W; P := F(X: Y) where F reaches W only through N and X is used inside W.
+  The names are ordered N < P < W, the program text lists the functor
+  applications in a random order."""
+  x = Var('x')
+  X, Y, Z, Z2, D = (_Unary(n, rng) for n in ('X', 'Y', 'Z', 'Z2', 'D'))
+  K = Pred('K', [Rule([('col0', x, '')],
+                      [Atom('Z', [('col0', x)]), Atom('X', [('col0', x)])])])
+  V = Pred('V', [Rule([('col0', x, '')],
+                      [Atom('W', [('col0', x)]), Cmp(Op('>=', x, Lit(N_(0))))])])
+  H = Pred('H', [Rule([('col0', x, '')], [Atom('D', [('col0', x)])])])
+  F = Pred('F', [Rule([('col0', x, '')], [Atom('N', [('col0', x)])])])
+  prog = Prog([X, Y, Z, Z2, D, K, V, H, F])
+  prog['makes'] = [{'name': 'W', 'functor': 'K', 'args': [{'k': 'Z', 'v': 'Z2'}]},
+                   {'name': 'N', 'functor': 'H', 'args': [{'k': 'D', 'v': 'V'}]},
+                   {'name': 'P', 'functor': 'F', 'args': [{'k': 'X', 'v': 'Y'}]}]
+  order = [0, 1, 2]
+  rng.shuffle(order)
+  prog['makes_text_order'] = order
+  return prog, ['W', 'V', 'N', 'F', 'P'], ['fam_make_order_chain']
+
+
+C04_FAMILIES = [('made_with_own_rules', MadeWithOwnRules),
+                ('made_with_limit', MadeWithLimit),
+                ('make_order_chain', MakeOrderChain)]
